@@ -18,6 +18,10 @@
 // so that the runner can (a) check that the wrappers whose C++ operation the model classifies as `canThrow = false` make
 // no request at all, (b) see whether the twin's requests are the ones the wrapper makes (same sizes in the same order up
 // to the failing one), and (c) compare status / object state / heap after a failed allocation like after any other failure.
+// Objects without data (ndim == 0): `get .. ndim|total`, `search` and the ops with a table->data guard are executed on
+// them like on any table; the per-dimension accessors, `coeffs` and the evaluation ops are undefined in the C++ class
+// there and answer `skip`, as does every value / evaluation op on a handle that owns nothing (token `if-object`: the
+// script does not know what an injected allocation failure left behind and lets the harness decide).
 // usage: c18_harness <script> <fixture-dir>       (script: FIX <seed> / SEQ <id> <nh> / op lines / END)
 #include "common.h"
 #include <fstream>
@@ -183,16 +187,27 @@ static uint64_t nd_hash(const struct ndsparse* nd) {
   return h;
 }
 
+// every array of an object with data is there (an object that a failed operation left half-built would make the twin's
+// own calls undefined; the digest comparison reports such an object as `partial`)
+static bool complete(const Table* t) {
+  if (!t->order || !t->nknots || !t->knots || !t->naxes || !t->strides || !t->coefficients || !t->extents) return false;
+  for (uint32_t i = 0; i < t->ndim; i++) if (!t->knots[i] || !t->extents[i]) return false;
+  return true;
+}
+
 // scratch vectors reused across ops (sized once; resizing happens outside the measured windows)
 static std::vector<double> X; static std::vector<int> CEN_C, CEN_T; static std::vector<double> G_C, G_T;
 
-static bool draw_point(const Table* t, Rng& r, bool inside) {
+static bool draw_point(const Table* t, Rng& r, bool inside, const std::string& how = "") {
   uint32_t nd = t->ndim; X.resize(nd); CEN_C.assign(nd, -1); CEN_T.assign(nd, -1); G_C.assign(nd + 1, 0); G_T.assign(nd + 1, 0);
   for (uint32_t i = 0; i < nd; i++) {
     double lo = t->knots[i][0], hi = t->knots[i][t->nknots[i] - 1];
     X[i] = lo + (hi - lo) * (0.02 + 0.96 * r.unit());
   }
   if (!inside) { uint32_t i = (uint32_t)r.below(nd); X[i] = t->knots[i][t->nknots[i] - 1] + 1.0 + r.unit(); }
+  // one coordinate NaN (searchcenters refuses it) / exactly on the last knot (accepted: the interval is closed on the right)
+  if (nd && how == "nan") X[r.below(nd)] = std::numeric_limits<double>::quiet_NaN();
+  if (nd && how == "edge") { uint32_t i = (uint32_t)r.below(nd); X[i] = t->knots[i][t->nknots[i] - 1]; }
   return true;
 }
 
@@ -314,9 +329,17 @@ static bool run_op(const std::vector<std::string>& w, Buf& c, Buf& t, long& dC, 
     else { int st = 0; TSIDE(try { if (isint) W[h]->write_key(key, iv); else W[h]->write_key(key, dv); } catch (...) { st = 2; }); t.add(st == 0 ? "ok" : "throw"); }
   } else if (op == "get") {
     const std::string& which = w[2]; Rng r(strtoull(w[3].c_str(), nullptr, 10));
-    const Table* tw = W[h]; uint32_t nd = tw->ndim; uint32_t d = nd ? (uint32_t)r.below(nd) : 0;
+    // no object behind the handle (the generator does not know the state after an injected allocation failure and asks
+    // "if-object"): the value wrappers are undefined there (C18_undefined_without_object) -- never called
+    const Table* tw = W[h]; if (!tw || !H[h].data) return false;
+    uint32_t nd = tw->ndim; uint32_t d = nd ? (uint32_t)r.below(nd) : 0;
+    // an object WITHOUT data (ndim == 0: after splinetable_init, after a failed read / fit / convolve): the accessors
+    // without a dimension argument are defined by the C++ class -- get_ndim() = 0, get_ncoeffs() = the empty product 1 --
+    // and are compared like on any other table; the per-dimension accessors (assert(dim<ndim), null arrays) and
+    // get_coefficients() (`&coefficients[0]` on the null array) are not, and are skipped
     if (which == "ndim") { uint32_t v; CSIDE(v = splinetable_ndim(ch)); c.add("val v=%u", v); TSIDE(v = tw->get_ndim()); t.add("ok v=%u", v); }
-    else if (nd == 0) return false;
+    else if (which == "total") { uint64_t v; CSIDE(v = splinetable_total_ncoeffs(ch)); c.add("val v=%llu", (unsigned long long)v); TSIDE(v = tw->get_ncoeffs()); t.add("ok v=%llu", (unsigned long long)v); }
+    else if (nd == 0 || !complete(tw)) return false;
     else if (which == "order") { uint32_t v; CSIDE(v = splinetable_order(ch, d)); c.add("val v=%u", v); TSIDE(v = tw->get_order(d)); t.add("ok v=%u", v); }
     else if (which == "nknots") { uint64_t v; CSIDE(v = splinetable_nknots(ch, d)); c.add("val v=%llu", (unsigned long long)v); TSIDE(v = tw->get_nknots(d)); t.add("ok v=%llu", (unsigned long long)v); }
     else if (which == "knots") { const double* v; CSIDE(v = splinetable_knots(ch, d)); c.add("ptr v=%016llx", (unsigned long long)fnv_d(v, cobj->nknots[d], 7)); TSIDE(v = tw->get_knots(d)); t.add("ok v=%016llx", (unsigned long long)fnv_d(v, tw->nknots[d], 7)); }
@@ -325,14 +348,15 @@ static bool run_op(const std::vector<std::string>& w, Buf& c, Buf& t, long& dC, 
     else if (which == "upper") { double v; CSIDE(v = splinetable_upper_extent(ch, d)); c.add("val v=%llu", (unsigned long long)cbits(v)); TSIDE(v = tw->upper_extent(d)); t.add("ok v=%llu", (unsigned long long)cbits(v)); }
     else if (which == "period") { if (!tw->periods || !cobj->periods) return false; double v; CSIDE(v = splinetable_period(ch, d)); c.add("val v=%llu", (unsigned long long)cbits(v)); TSIDE(v = tw->get_period(d)); t.add("ok v=%llu", (unsigned long long)cbits(v)); }
     else if (which == "ncoeffs") { uint64_t v; CSIDE(v = splinetable_ncoeffs(ch, d)); c.add("val v=%llu", (unsigned long long)v); TSIDE(v = tw->get_ncoeffs(d)); t.add("ok v=%llu", (unsigned long long)v); }
-    else if (which == "total") { uint64_t v; CSIDE(v = splinetable_total_ncoeffs(ch)); c.add("val v=%llu", (unsigned long long)v); TSIDE(v = tw->get_ncoeffs()); t.add("ok v=%llu", (unsigned long long)v); }
     else if (which == "stride") { uint64_t v; CSIDE(v = splinetable_stride(ch, d)); c.add("val v=%llu", (unsigned long long)v); TSIDE(v = tw->get_stride(d)); t.add("ok v=%llu", (unsigned long long)v); }
     else if (which == "coeffs") { const float* v; CSIDE(v = splinetable_coefficients(ch)); c.add("ptr v=%016llx", (unsigned long long)fnv_f(v, cobj->naxes[0] * cobj->strides[0], 7)); TSIDE(v = tw->get_coefficients()); t.add("ok v=%016llx", (unsigned long long)fnv_f(v, tw->naxes[0] * tw->strides[0], 7)); }
     else return false;
   } else if (op == "search" || op == "eval" || op == "grad" || op == "deriv") {
-    const Table* tw = W[h]; if (!tw || tw->ndim == 0) return false;
+    // searchcenters of an object without data is defined (no dimension to test: true, nothing read or written), the
+    // evaluation functions are not (`*std::max_element(order, order+0)`)
+    const Table* tw = W[h]; if (!tw || !H[h].data || (tw->ndim == 0 && op != "search") || (tw->ndim != 0 && !complete(tw))) return false;
     Rng r(strtoull(w[3].c_str(), nullptr, 10));
-    draw_point(tw, r, w[2] != "out");
+    draw_point(tw, r, w[2] != "out" || tw->ndim == 0, w[2]);
     uint32_t nd = tw->ndim;
     if (op == "search") {
       int rc; CSIDE(rc = tablesearchcenters(ch, X.data(), CEN_C.data())); bool ok; TSIDE(ok = tw->searchcenters(X.data(), CEN_T.data()));
@@ -355,8 +379,10 @@ static bool run_op(const std::vector<std::string>& w, Buf& c, Buf& t, long& dC, 
         else { bool allnan = true; for (auto g : G_C) if (g == g) allnan = false; c.add(allnan ? " g=nan" : " g=stale"); }
       } else {
         std::vector<unsigned int> dv(nd); for (uint32_t i = 0; i < nd; i++) dv[i] = (unsigned)r.below(std::min<uint32_t>(2, tw->order[i]) + 1);
-        double v; CSIDE(v = ndsplineeval_deriv(ch, X.data(), CEN_C.data(), dv.data())); c.add("val v=%llu", (unsigned long long)cbits(v));
-        TSIDE(v = tw->ndsplineeval_deriv(X.data(), CEN_T.data(), dv.data())); t.add("ok v=%llu", (unsigned long long)cbits(v));
+        // derivatives == NULL is an input the C++ operation defines (it tests for it: no differentiation in any dimension)
+        const unsigned int* dp = r.coin(1, 5) ? nullptr : dv.data();
+        double v; CSIDE(v = ndsplineeval_deriv(ch, X.data(), CEN_C.data(), dp)); c.add("val v=%llu%s", (unsigned long long)cbits(v), dp ? "" : " dv=null");
+        TSIDE(v = tw->ndsplineeval_deriv(X.data(), CEN_T.data(), dp)); t.add("ok v=%llu%s", (unsigned long long)cbits(v), dp ? "" : " dv=null");
       }
     }
   } else if (op == "glamfit") {
